@@ -50,7 +50,7 @@ OMP = ["OMPParallelTrans", "OMPParallelTrans", "OMPLoopTrans", "OMPLoopTrans",
        "OMPTaskwaitTrans"]
 ACC = ["ACCParallelTrans", "ACCParallelTrans", "ACCLoopTrans", "ACCLoopTrans",
        "ACCLoopTrans", "ACCKernelsTrans", "ACCDataTrans", "ACCEnterDataTrans",
-       "ACCUpdateTrans"]
+       "ACCUpdateTrans", "ACCRoutineTrans"]
 STRUCT = ["LoopSwapTrans", "ChunkLoopTrans", "LoopFuseTrans", "MoveTrans"]
 SAFE_OPTS = [i for i, o in enumerate(hm.OPTIONS)
              if not (o and o.get("force"))]
@@ -92,11 +92,22 @@ def scan_structure(text):
     """The three structural rules named by the property, checked on the
     directive lines of the written text.  Returns None or (rule, detail)."""
     lines = [ln.strip().lower() for ln in text.split("\n")]
-    has_acc_routine = any(ln.startswith("!$acc routine") for ln in lines)
+    # "!$acc routine" licenses orphaned loop directives in *its own*
+    # program unit only
+    unit_of = []
+    unit = 0
+    routine_units = set()
+    for ln in lines:
+        if re.match(r"(subroutine|function)\s+\w+", ln):
+            unit += 1
+        unit_of.append(unit)
+        if ln.startswith("!$acc routine"):
+            routine_units.add(unit)
     stack = []      # (model, name) of open constructs
     for i, ln in enumerate(lines):
         if not (ln.startswith("!$omp") or ln.startswith("!$acc")):
             continue
+        has_acc_routine = unit_of[i] in routine_units
         model = ln[2:5]
         body = ln[5:].strip()
         if body.startswith("end "):
